@@ -219,14 +219,7 @@ func scalarMachine() *core.Machine[scState] {
 		Key: func(s *scState) []byte {
 			var b []byte
 			for i := range s.R {
-				if alpha.ScalarLayoutOK {
-					r := alpha.ScalarRaw(&s.R[i])
-					for _, w := range r {
-						b = append(b, byte(w), byte(w>>8), byte(w>>16), byte(w>>24), byte(w>>32), byte(w>>40), byte(w>>48), byte(w>>56))
-					}
-				} else {
-					b = append(b, s.R[i].Bytes()...)
-				}
+				b = append(b, alpha.ScalarRaw(&s.R[i])...)
 			}
 			return b
 		},
